@@ -188,4 +188,4 @@ def null_space(A: np.ndarray) -> np.ndarray:
                 vec[j] = A_rref[k, i]
                 k += 1
             out.append(vec % 2)
-    return np.array(out)
+    return np.array(out, dtype=np.int8).reshape((len(out), cols))
